@@ -463,6 +463,9 @@ class ExprGen:
         if k == "index-array":
             return "(%s)[]%s" % (self.expr(d + 1), r.pick(["[number]", "[0]"]))
         if k == "index-tuple":
+            if r.chance(0.3):
+                # a rest element: `[A, ...B[]][1]` is B, `[A, ...B[]][number]` is A | B
+                return "[%s, ...(%s)[]]%s" % (self.expr(d + 1), self.expr(d + 1), r.pick(["[0]", "[1]", "[number]"]))
             return "[%s, %s]%s" % (self.expr(d + 1), self.expr(d + 1), r.pick(["[0]", "[1]", "[number]"]))
         if k == "index-prop":
             return "{ p: %s, q: number }%s" % (self.expr(d + 1), r.pick(["['p']", "['p' | 'q']", "[string]"]))
